@@ -387,10 +387,10 @@ def rule_M4_M5_M6(m, rep, want=('M4', 'M5', 'M6')):
             if not err_e or not ok_e:
                 rep.bad('M4', '%s-write-result-examined' % nm, body.where(bb), 'result of BufWriter::write not examined')
                 continue
-            r = reach(body, err_e)
-            others = [x for x, _ in bww if x in r] + [x for x, _ in m.bypass_blocks() if x in r]
-            rts = ret_terms(T, err_e)
             ct = norm(T.call_term(bb))
+            _, r = freach(T, err_e, known={ct: 'Err'})
+            others = [x for x, _ in bww if x in r] + [x for x, _ in m.bypass_blocks() if x in r]
+            rts = ret_terms(T, err_e, known={ct: 'Err'})
             okk = not others and rts and all(_is_err_of(rt, ct) for rt in rts)
             rep.ob('M4', '%s-write-error-returns-at-once' % nm, okk, body.where(bb),
                    'Err edge returns that error, no further write' if okk else
@@ -404,7 +404,7 @@ def rule_M4_M5_M6(m, rep, want=('M4', 'M5', 'M6')):
         ok_e1, _, _ = outcomes(T, b1)
         ok_e2, _, _ = outcomes(T, b2)
         # from ok edge of first, every path to return passes b2
-        mp = C.must_pass(body, list(ok_e1)[0], set(C.exits(body, False)), {b2}) if ok_e1 else False
+        mp = fmust_pass(T, list(ok_e1), {b2}, known={norm(T.call_term(b1)): 'Ok'}) if ok_e1 else False
         rep.ob('M4', 'line-ending-always-follows', mp, body.where(b2),
                'after the metric was buffered every path writes the line ending' if mp else
                'a path buffers the metric and returns without writing the line ending')
@@ -433,8 +433,10 @@ def rule_M4_M5_M6(m, rep, want=('M4', 'M5', 'M6')):
                 callbb = b1 if which == 1 else b2
                 ok_e, err_e, _ = outcomes(T, callbb)
                 # the store must lie on the Ok side, and before any later fallible write
-                on_ok = b in reach(body, ok_e)
-                later_calls = [x for x, _ in bww if x != callbb and x in reach(body, ok_e, stop=lambda y: y == b) and x != b]
+                kn = {norm(T.call_term(callbb)): 'Ok'}
+                on_ok = b in freach(T, ok_e, known=kn)[1]
+                later_calls = [x for x, _ in bww if x != callbb and x in reach(body, ok_e, stop=lambda y: y == b) and x != b
+                               and x in freach(T, ok_e, known=kn)[1]]
                 okk = on_ok and not later_calls
                 rep.ob('M5', 'count-after-write-%d' % which, okk, body.where(b, i),
                        'written += r%d right after the write succeeded' % which if okk else
@@ -446,7 +448,7 @@ def rule_M4_M5_M6(m, rep, want=('M4', 'M5', 'M6')):
                             'bytes buffered by write %d are never added to self.%s' % (which, m.f_written))
         if 'M6' in want:
             ok_e2, _, _ = outcomes(T, b2)
-            rts = ret_terms(T, ok_e2) if ok_e2 else set()
+            rts = ret_terms(T, ok_e2, known={norm(T.call_term(b2)): 'Ok'}) if ok_e2 else set()
             okk = bool(rts) and all(rt[0] == 'adt' and rt[2] == 'Ok' and dict(rt[3]).get('0') == r1 for rt in rts)
             rep.ob('M6', 'returns-metric-byte-count', okk, body.where(b2),
                    'buffered path returns Ok(bytes of the metric)' if okk else
